@@ -148,6 +148,8 @@ def harness(g, chart, level, canary=False):
         hist.append(ev)
         if ev is not None:
             pending.append(ev)
+            it.queue(ev)
+            g.prove(Eq(it.time, before), 'time_unchanged_by_queue', info)
         nxt = pending[0] if pending else None
         conf = {cm.idx[c] for c in it.configuration}
         # ---- oracle: which transitions fire at `now` (C01's rule with time guards)
@@ -171,7 +173,7 @@ def harness(g, chart, level, canary=False):
         del times_seen[:]
         del inv_seen[:]
         del started[:]
-        stp, err, log = inst.step(k, ev)
+        stp, err, log = inst.step(k, None)
         if err is not None:
             if isinstance(err, (NonDeterminismError, ConflictingTransitionsError)):
                 pairs = [And(fires[a], fires[b]) for a in range(m) for b in range(a + 1, m)]
